@@ -47,12 +47,33 @@ const (
 	kFailU             // FU<d>: ignores its context, fails with its scripted error after d
 )
 
+// An outcome scripts every DialFunc invocation made for one target. Without Rej
+// there is one invocation (K, D). With Rej == rejRetry the first invocation
+// returns, after RD (or ctx.Err() if its context ends first), a
+// *tls.ECHRejectionError that carries retry configs: dialOne must then call
+// DialFunc once more for the same address, and that retry invocation behaves as
+// (K, D) counted from its own start. With Rej == rejNoConfigs the rejection
+// carries no retry configs: it is a plain failure and must not be retried.
 type outcome struct {
-	K kind
-	D time.Duration
+	K   kind
+	D   time.Duration
+	Rej int
+	RD  time.Duration
 }
 
+const (
+	rejNone      = 0
+	rejRetry     = 1
+	rejNoConfigs = 2
+)
+
 func (o outcome) String() string {
+	switch o.Rej {
+	case rejRetry:
+		return fmt.Sprintf("R%d>%s", o.RD/ms, outcome{K: o.K, D: o.D})
+	case rejNoConfigs:
+		return fmt.Sprintf("RN%d", o.RD/ms)
+	}
 	n := int64(o.D / ms)
 	switch o.K {
 	case kSucc:
@@ -121,8 +142,8 @@ func (sc *scenario) addr() (network, addr string) {
 // targets x MaxConcurrency 1..4 x ConcurrencyDelay {10,100} ms x Timeout
 // {50,500} ms x caller cancel() at {never, 0, 5, 60, 600} ms.
 var (
-	gridAlpha = []outcome{{kSucc, 0}, {kSucc, 10 * ms}, {kSucc, 100 * ms}, {kFail, 0}, {kFail, 10 * ms}, {kFail, 100 * ms},
-		{kHang, 0}, {kSuccU, 10 * ms}, {kSuccU, 100 * ms}, {kFailU, 100 * ms}}
+	gridAlpha = []outcome{{K: kSucc, D: 0}, {K: kSucc, D: 10 * ms}, {K: kSucc, D: 100 * ms}, {K: kFail, D: 0}, {K: kFail, D: 10 * ms}, {K: kFail, D: 100 * ms},
+		{K: kHang, D: 0}, {K: kSuccU, D: 10 * ms}, {K: kSuccU, D: 100 * ms}, {K: kFailU, D: 100 * ms}}
 	gridConc    = []int{1, 2, 3, 4}
 	gridDelay   = []time.Duration{10 * ms, 100 * ms}
 	gridTimeout = []time.Duration{50 * ms, 500 * ms}
@@ -139,8 +160,43 @@ func gridCfgs() int { return len(gridConc) * len(gridDelay) * len(gridTimeout) *
 
 func gridSize() int { return gridShapes() * gridCfgs() }
 
-func gridScenario(i int) scenario {
-	cfg, shape := i%gridCfgs(), i/gridCfgs()
+// The second exhaustively enumerated sub-space (workload retrygrid): 1 or 2
+// targets drawn from gridAlpha + retryAlpha with at least one ECH-rejection
+// letter, x the same settings as the grid.
+var retryAlpha = []outcome{
+	{K: kSucc, D: 10 * ms, Rej: rejRetry, RD: 10 * ms},   // R10>S10
+	{K: kFail, D: 10 * ms, Rej: rejRetry, RD: 10 * ms},   // R10>F10
+	{K: kHang, Rej: rejRetry, RD: 10 * ms},               // R10>H: the retry stalls until its context ends
+	{K: kSuccU, D: 100 * ms, Rej: rejRetry, RD: 10 * ms}, // R10>SU100
+	{K: kSucc, D: 10 * ms, Rej: rejRetry, RD: 100 * ms},  // R100>S10: with Timeout 50 the rejection never arrives
+	{K: kFail, Rej: rejNoConfigs, RD: 10 * ms},           // RN10: rejection without retry configs
+}
+
+var retryShapes = func() [][]outcome {
+	all := append(append([]outcome{}, gridAlpha...), retryAlpha...)
+	var out [][]outcome
+	for _, a := range retryAlpha {
+		out = append(out, []outcome{a})
+	}
+	for _, a := range all {
+		for _, b := range all {
+			if a.Rej != rejNone || b.Rej != rejNone {
+				out = append(out, []outcome{a, b})
+			}
+		}
+	}
+	return out
+}()
+
+func retryGridSize() int { return len(retryShapes) * gridCfgs() }
+
+func retryGridScenario(i int) scenario {
+	sc := gridSettings(i % gridCfgs())
+	sc.Targets = retryShapes[i/gridCfgs()]
+	return sc
+}
+
+func gridSettings(cfg int) scenario {
 	var sc scenario
 	sc.MaxConc = gridConc[cfg%len(gridConc)]
 	cfg /= len(gridConc)
@@ -151,6 +207,12 @@ func gridScenario(i int) scenario {
 	if c := gridCancel[cfg]; c >= 0 {
 		sc.CancelKind, sc.CancelAt = cancelFunc, c
 	}
+	return sc
+}
+
+func gridScenario(i int) scenario {
+	shape := i / gridCfgs()
+	sc := gridSettings(i % gridCfgs())
 	n, cnt := 0, 1
 	for shape >= cnt {
 		shape -= cnt
@@ -163,7 +225,7 @@ func gridScenario(i int) scenario {
 	}
 	if n == 0 {
 		sc.Zero = true
-		sc.Targets = []outcome{{kSucc, 0}} // one address that yields no target; must never be dialled
+		sc.Targets = []outcome{{K: kSucc, D: 0}} // one address that yields no target; must never be dialled
 	}
 	return sc
 }
@@ -200,6 +262,12 @@ func randScenario(rng *mrand.Rand) scenario {
 		default:
 			o.K = kFailU
 		}
+		switch p := rng.IntN(100); {
+		case p < 10:
+			o.Rej, o.RD = rejRetry, fullD[rng.IntN(len(fullD))]
+		case p < 13:
+			o = outcome{K: kFail, Rej: rejNoConfigs, RD: fullD[rng.IntN(len(fullD))]}
+		}
 		sc.Targets = append(sc.Targets, o)
 	}
 	if rng.IntN(20) > 0 {
@@ -232,11 +300,13 @@ type event struct {
 	Seq    int
 	Kind   string // start | finish | close | return
 	Target int    // target index (for return: index of the returned connection, -1 none, -2 foreign)
+	Inv    int    // start/finish: how many DialFunc invocations this target had seen before (0 = first, 1 = ECH retry)
 	At     time.Duration
 	HasDL  bool          // start: ctx.Deadline() ok
 	DL     time.Duration // start: ctx deadline relative to the bubble start
 	CtxErr string        // start: ctx.Err() when DialFunc was entered ("" = live)
 	OK     bool          // finish: returned a connection
+	Retry  bool          // finish: returned an ECH rejection that carries retry configs (dialOne has to retry)
 	Err    string        // finish/return: error text
 }
 
@@ -260,8 +330,10 @@ type recorder struct {
 	mu     sync.Mutex
 	t0     time.Time
 	ev     []event
-	finErr []error // error value each attempt returned
+	finErr []error // error value the latest invocation for each target returned (nil: a connection)
 	script []*scriptErr
+	rej    []*tls.ECHRejectionError
+	inv    []int // DialFunc invocations seen per target
 	index  map[string]int
 }
 
@@ -282,7 +354,12 @@ func (rec *recorder) dial(ctx context.Context, network, addr string, tc *tls.Con
 	// "return" event is already in the log, Dial has returned, hence its
 	// deferred cancel() happened before this read.
 	rec.mu.Lock()
-	e := event{Kind: "start", Target: idx, Seq: len(rec.ev), At: time.Since(rec.t0)}
+	inv := 0
+	if idx >= 0 {
+		inv = rec.inv[idx]
+		rec.inv[idx]++
+	}
+	e := event{Kind: "start", Target: idx, Inv: inv, Seq: len(rec.ev), At: time.Since(rec.t0)}
 	if err := ctx.Err(); err != nil {
 		e.CtxErr = err.Error()
 	}
@@ -297,6 +374,10 @@ func (rec *recorder) dial(ctx context.Context, network, addr string, tc *tls.Con
 		return nil, err
 	}
 	o := rec.sc.Targets[idx]
+	rejecting := o.Rej != rejNone && inv == 0
+	if rejecting {
+		o.K, o.D = kFail, o.RD // honours its context; "fails" with the rejection
+	}
 	start := time.Now()
 	var err error
 	switch o.K {
@@ -323,18 +404,22 @@ func (rec *recorder) dial(ctx context.Context, network, addr string, tc *tls.Con
 			tm.Stop()
 		}
 	}
-	if err == nil && (o.K == kFail || o.K == kFailU) {
+	retry := false
+	if err == nil && rejecting {
+		err = rec.rej[idx]
+		retry = len(rec.rej[idx].RetryConfigList) > 0
+	} else if err == nil && (o.K == kFail || o.K == kFailU) {
 		err = rec.script[idx]
 	}
+	rec.mu.Lock()
+	rec.finErr[idx] = err
+	rec.mu.Unlock()
 	if err != nil {
-		rec.mu.Lock()
-		rec.finErr[idx] = err
-		rec.mu.Unlock()
-		rec.add(event{Kind: "finish", Target: idx, Err: err.Error()})
+		rec.add(event{Kind: "finish", Target: idx, Inv: inv, Err: err.Error(), Retry: retry})
 		return nil, err
 	}
 	c := &fakeConn{rec: rec, target: idx}
-	rec.add(event{Kind: "finish", Target: idx, OK: true})
+	rec.add(event{Kind: "finish", Target: idx, Inv: inv, OK: true})
 	return c, nil
 }
 
@@ -428,10 +513,15 @@ func scanBubble(id string) []leaked {
 // only when the bubble reports that goroutines outlived it.
 func runScenario(t *testing.T, sc *scenario, scan bool) *result {
 	res := &result{}
-	rec := &recorder{sc: sc, index: map[string]int{}, finErr: make([]error, len(sc.Targets))}
-	for i := range sc.Targets {
+	rec := &recorder{sc: sc, index: map[string]int{}, finErr: make([]error, len(sc.Targets)), inv: make([]int, len(sc.Targets))}
+	for i, o := range sc.Targets {
 		rec.index[fmt.Sprintf("10.0.0.%d:443", i+1)] = i
 		rec.script = append(rec.script, &scriptErr{i})
+		rj := &tls.ECHRejectionError{}
+		if o.Rej == rejRetry {
+			rj.RetryConfigList = []byte{0xfe, 0x0d, byte(i)} // opaque for Dial: only handed back to DialFunc in tc
+		}
+		rec.rej = append(rec.rej, rj)
 	}
 	network, addr := sc.addr()
 	func() {
@@ -516,6 +606,8 @@ type stats struct {
 	maxInflight, wakeStarts, wakeOld     int
 	cancelJoin                           int
 	attempts                             int
+	retries, rejNoCfg                    int // attempts with an ECH retry invocation; rejections without configs left alone
+	retrySameDeadline, retryTimeouts     int // retry invocations under the attempt's own deadline; retries cut off at attempt start + Timeout
 }
 
 func fmtD(d time.Duration) string { return fmt.Sprintf("%gms", float64(d)/1e6) }
@@ -529,8 +621,9 @@ func fmtD(d time.Duration) string { return fmt.Sprintf("%gms", float64(d)/1e6) }
 //	S3 start(k+1) >= start(k)+ConcurrencyDelay unless an earlier attempt failed at or before start(k+1),
 //	   or the outcome was decided (LENIENT: any earlier failure excuses; the statement says
 //	   "only after ConcurrencyDelay or an earlier failure" and wake-ups may be dropped, so only the lower bound is judged)
-//	S4 an attempt entered with a live context has deadline == start+Timeout (or the caller's earlier deadline);
-//	   attempts that honour their context are back by then
+//	S4 every DialFunc invocation of an attempt (the first one and the ECH retry) that is entered with a live
+//	   context has deadline == ATTEMPT start+Timeout (or the caller's earlier deadline); invocations that honour
+//	   their context are back by then; a rejection without retry configs is not retried
 //	S5 a success strictly before the return/cancellation => Dial returns that connection at that instant;
 //	   the winner is never closed, every other established connection is closed by quiescence
 //	S6 no success, no cancellation => every target attempted, error reaches every attempt's error via errors.Is;
@@ -557,45 +650,59 @@ func check(sc *scenario, res *result) (fs []finding, incon []string, st stats) {
 	hasCancel := sc.CancelKind != cancelNever
 	c := sc.CancelAt
 
+	// An attempt is everything Dial does for one target: the first DialFunc
+	// invocation and, after an ECH rejection with retry configs, the retry
+	// invocation. S1-S3, S5, S6 judge attempts (start of the first invocation,
+	// outcome and finish of the last); S4 and S9 judge every invocation.
+	type invRec struct {
+		finished, ok, retry bool
+		sSeq, fSeq          int
+		sAt, fAt            time.Duration
+		hasDL               bool
+		dl                  time.Duration
+		ctxErr              string
+	}
 	type att struct {
 		started, finished, ok bool
 		sSeq, fSeq            int
 		sAt, fAt              time.Duration
-		hasDL                 bool
-		dl                    time.Duration
-		ctxErr                string
 		closes                int
+		inv                   []invRec
 	}
 	atts := make([]att, n)
 	const never = int(^uint(0) >> 1)
 	retSeq, retAt := never, time.Duration(1<<62)
 	retTarget, retErr := -1, ""
-	inflight := 0
 	for _, e := range res.Events {
 		switch e.Kind {
 		case "start":
 			if e.Target < 0 || e.Target >= n {
 				add("targets:unexpected-attempt", "DialFunc called for an address that is not a target of this scenario (zero-target list or unknown address) at %s", fmtD(e.At))
-				inflight++
 				continue
 			}
 			a := &atts[e.Target]
-			if a.started {
-				add("order:duplicate-start", "target %d dialled twice (at %s and %s)", e.Target, fmtD(a.sAt), fmtD(e.At))
-				inflight++
-				continue
+			if len(a.inv) > 0 {
+				first := &a.inv[0]
+				switch {
+				case len(a.inv) == 1 && first.finished && first.retry:
+					// the ECH retry of the same target
+				case len(a.inv) == 1 && first.finished && sc.Targets[e.Target].Rej == rejNoConfigs && !first.ok:
+					add("retry:rejection-without-configs-retried", "target %d was dialled again at %s after an ECH rejection that carried no retry configs (a plain failure)", e.Target, fmtD(e.At))
+					continue
+				default:
+					add("order:duplicate-start", "target %d dialled again at %s (first at %s) without a pending ECH retry", e.Target, fmtD(e.At), fmtD(a.sAt))
+					continue
+				}
+			} else {
+				a.started, a.sSeq, a.sAt = true, e.Seq, e.At
+				st.attempts++
 			}
-			*a = att{started: true, sSeq: e.Seq, sAt: e.At, hasDL: e.HasDL, dl: e.DL, ctxErr: e.CtxErr}
-			st.attempts++
-			inflight++
-			if inflight > st.maxInflight {
-				st.maxInflight = inflight
-			}
+			a.inv = append(a.inv, invRec{sSeq: e.Seq, sAt: e.At, hasDL: e.HasDL, dl: e.DL, ctxErr: e.CtxErr})
 		case "finish":
-			inflight--
-			if e.Target >= 0 && e.Target < n && atts[e.Target].started && !atts[e.Target].finished {
-				a := &atts[e.Target]
-				a.finished, a.ok, a.fSeq, a.fAt = true, e.OK, e.Seq, e.At
+			if e.Target >= 0 && e.Target < n && len(atts[e.Target].inv) > 0 {
+				if iv := &atts[e.Target].inv[len(atts[e.Target].inv)-1]; !iv.finished {
+					iv.finished, iv.ok, iv.retry, iv.fSeq, iv.fAt = true, e.OK, e.Retry, e.Seq, e.At
+				}
 			}
 		case "close":
 			if e.Target >= 0 && e.Target < n {
@@ -603,6 +710,39 @@ func check(sc *scenario, res *result) (fs []finding, incon []string, st stats) {
 			}
 		case "return":
 			retSeq, retAt, retTarget, retErr = e.Seq, e.At, e.Target, e.Err
+		}
+	}
+	// The attempt's outcome is that of its last invocation. (A rejection with
+	// retry configs that is NOT followed by a retry is judged as the failure it
+	// is: the statement does not mention the retry, so its absence is no verdict.)
+	delta := map[int]int{}
+	for k := range atts {
+		a := &atts[k]
+		if !a.started {
+			continue
+		}
+		last := &a.inv[len(a.inv)-1]
+		a.finished, a.ok, a.fSeq, a.fAt = last.finished, last.ok, last.fSeq, last.fAt
+		delta[a.sSeq]++
+		if a.finished {
+			delta[a.fSeq]--
+		}
+		if len(a.inv) > 1 {
+			st.retries++
+		}
+		if sc.Targets[k].Rej == rejNoConfigs && len(a.inv) == 1 && a.finished && a.inv[0].fAt == a.sAt+sc.Targets[k].RD && !a.ok {
+			var rj *tls.ECHRejectionError
+			if errors.As(res.finErr[k], &rj) {
+				st.rejNoCfg++
+			}
+		}
+	}
+	// in-flight attempts along the log (an attempt stays in flight between its rejection and its retry)
+	inflight := 0
+	for seq := range res.Events {
+		inflight += delta[seq]
+		if inflight > st.maxInflight {
+			st.maxInflight = inflight
 		}
 	}
 
@@ -665,41 +805,64 @@ func check(sc *scenario, res *result) (fs []finding, incon []string, st stats) {
 				k, fmtD(a.sAt), fmtD(a.sAt-p.sAt), k-1, fmtD(p.sAt), fmtD(D), k-1)
 		}
 	}
-	// S4, S9
+	// S4, S9: every invocation
 	for k := range atts {
 		a := &atts[k]
 		if !a.started {
 			continue
 		}
-		if a.sSeq > retSeq {
-			st.afterDecision++
-			if a.ctxErr == "" {
-				add("late-attempt:live-context", "target %d was dialled at %s, after Dial had returned at %s, with a context that was not cancelled", k, fmtD(a.sAt), fmtD(retAt))
-			}
-		}
-		if a.ctxErr != "" {
-			continue // already cancelled: trivially bounded
-		}
-		want := a.sAt + T
+		want := a.sAt + T // one deadline for the whole attempt, counted from the attempt's start
 		if sc.CancelKind == cancelDeadline && c < want {
 			want = c
 		}
-		honours := sc.Targets[k].K == kSucc || sc.Targets[k].K == kFail || sc.Targets[k].K == kHang
-		switch {
-		case !a.hasDL:
-			add("timeout:no-deadline", "target %d dialled at %s with a context without deadline (Timeout %s)", k, fmtD(a.sAt), fmtD(T))
-		case a.dl > want:
-			add("timeout:deadline-late", "target %d dialled at %s with context deadline %s, want %s (Timeout %s)", k, fmtD(a.sAt), fmtD(a.dl), fmtD(want), fmtD(T))
-		case a.dl < want:
-			add("timeout:deadline-early", "target %d dialled at %s with context deadline %s, want %s (Timeout %s)", k, fmtD(a.sAt), fmtD(a.dl), fmtD(want), fmtD(T))
-		}
-		if honours {
-			if !a.finished {
-				add("timeout:not-released", "the attempt on target %d (started %s) never saw its context end", k, fmtD(a.sAt))
-			} else if a.fAt > want {
-				add("timeout:not-released", "the attempt on target %d (started %s) was released at %s, after start+Timeout = %s", k, fmtD(a.sAt), fmtD(a.fAt), fmtD(want))
-			} else if !a.ok && a.fAt == a.sAt+T && errors.Is(res.finErr[k], context.DeadlineExceeded) {
-				st.timeouts++
+		for j := range a.inv {
+			iv := &a.inv[j]
+			what := fmt.Sprintf("target %d", k)
+			if j > 0 {
+				what = fmt.Sprintf("the ECH retry of target %d (attempt started %s)", k, fmtD(a.sAt))
+			}
+			if iv.sSeq > retSeq {
+				if j == 0 {
+					st.afterDecision++
+				}
+				if iv.ctxErr == "" {
+					add("late-attempt:live-context", "%s was dialled at %s, after Dial had returned at %s, with a context that was not cancelled", what, fmtD(iv.sAt), fmtD(retAt))
+				}
+			}
+			if iv.ctxErr != "" {
+				continue // already cancelled: trivially bounded
+			}
+			o := sc.Targets[k]
+			honours := o.K == kSucc || o.K == kFail || o.K == kHang
+			if j == 0 && o.Rej != rejNone {
+				honours = true
+			}
+			switch {
+			case !iv.hasDL:
+				add("timeout:no-deadline", "%s dialled at %s with a context without deadline (Timeout %s)", what, fmtD(iv.sAt), fmtD(T))
+			case iv.dl > want && j > 0:
+				add("timeout:retry-deadline-restarted", "%s was dialled at %s with context deadline %s; the attempt is bounded by its start + Timeout %s = %s",
+					what, fmtD(iv.sAt), fmtD(iv.dl), fmtD(T), fmtD(want))
+			case iv.dl > want:
+				add("timeout:deadline-late", "%s dialled at %s with context deadline %s, want %s (Timeout %s)", what, fmtD(iv.sAt), fmtD(iv.dl), fmtD(want), fmtD(T))
+			case iv.dl < want:
+				add("timeout:deadline-early", "%s dialled at %s with context deadline %s, want %s (Timeout %s)", what, fmtD(iv.sAt), fmtD(iv.dl), fmtD(want), fmtD(T))
+			default:
+				if j > 0 {
+					st.retrySameDeadline++
+				}
+			}
+			if honours {
+				if !iv.finished {
+					add("timeout:not-released", "%s (invocation started %s) never saw its context end", what, fmtD(iv.sAt))
+				} else if iv.fAt > want {
+					add("timeout:not-released", "%s (invocation started %s) was released at %s, after attempt start + Timeout = %s", what, fmtD(iv.sAt), fmtD(iv.fAt), fmtD(want))
+				} else if j == len(a.inv)-1 && !iv.ok && iv.fAt == a.sAt+T && errors.Is(res.finErr[k], context.DeadlineExceeded) {
+					st.timeouts++
+					if j > 0 {
+						st.retryTimeouts++
+					}
+				}
 			}
 		}
 	}
@@ -851,6 +1014,12 @@ func evJSON(evs []event) []map[string]any {
 	out := make([]map[string]any, 0, len(evs))
 	for _, e := range evs {
 		m := map[string]any{"seq": e.Seq, "kind": e.Kind, "target": e.Target, "at_ms": float64(e.At) / 1e6}
+		if e.Kind == "start" || e.Kind == "finish" {
+			m["invocation"] = e.Inv
+		}
+		if e.Retry {
+			m["ech_rejection_with_retry_configs"] = true
+		}
 		switch e.Kind {
 		case "start":
 			m["ctx_err"] = e.CtxErr
@@ -877,8 +1046,9 @@ func payload(sc *scenario, res *result) map[string]any {
 	network, addr := sc.addr()
 	m := map[string]any{
 		"scenario": sc.String(),
-		"legend":   "S<ms> succeed after, F<ms> fail after (both stop early with ctx.Err() when the context ends), H hang until the context ends, SU/FU<ms> the same ignoring the context",
-		"targets":  ts, "network": network, "addr": addr,
+		"legend": "S<ms> succeed after, F<ms> fail after (both stop early with ctx.Err() when the context ends), H hang until the context ends, SU/FU<ms> the same ignoring the context, " +
+			"R<ms>>X first invocation returns a tls.ECHRejectionError with retry configs after <ms> and the retry invocation behaves as X, RN<ms> rejection without retry configs",
+		"targets": ts, "network": network, "addr": addr,
 		"max_concurrency": sc.MaxConc, "concurrency_delay_ms": float64(sc.Delay) / 1e6, "timeout_ms": float64(sc.Timeout) / 1e6,
 		"cancel_kind": []string{"never", "cancel()", "deadline"}[sc.CancelKind], "cancel_at_ms": float64(sc.CancelAt) / 1e6,
 		"events": evJSON(res.Events), "dial_returned": res.Returned,
@@ -904,9 +1074,11 @@ func TestCheck(t *testing.T) {
 		"EXHAUSTIVE sub-space (workload grid, %d scenarios, identical for every seed): every assignment of {S0,S10,S100,F0,F10,F100,H,SU10,SU100,FU100} "+
 		"(S/F = succeed/fail after n ms or return ctx.Err() if the context ends first, H = hang until the context ends, SU/FU = ignore the context) to 0..3 targets "+
 		"x MaxConcurrency 1..4 x ConcurrencyDelay {10,100} ms x Timeout {50,500} ms x caller cancel() at {never,0,5,60,600} ms. "+
-		"Workload rand: seed-drawn scenarios, 1..5 targets (mostly 4-5; 2%% address lists without any target), durations {0,1,10,50,100,1000} ms, "+
+		"SECOND EXHAUSTIVE sub-space (workload retrygrid, %d scenarios): 1..2 targets over those letters + {R10>S10,R10>F10,R10>H,R10>SU100,R100>S10,RN10} with at least one R letter "+
+		"(R<a>>X = the first DialFunc invocation returns a tls.ECHRejectionError with retry configs after a ms and the retry invocation of the same target behaves as X; RN = rejection without retry configs), same settings. "+
+		"Workload rand: seed-drawn scenarios, 1..5 targets (mostly 4-5; 2%% address lists without any target), durations {0,1,10,50,100,1000} ms, 13%% of the targets with an ECH rejection first, "+
 		"MaxConcurrency 0(default)..4, delay {10,100,default 1 s}, timeout {50,500,default 30 s}, caller cancel()/deadline at {0,5,60,600} ms. "+
-		"distinct = distinct scenario strings whose Dial call was executed and whose full event trace was judged", gridSize()))
+		"distinct = distinct scenario strings whose Dial call was executed and whose full event trace was judged", gridSize(), retryGridSize()))
 	r.SetExhaustive(true)
 	r.Assume("testing/synctest of the building toolchain (virtual clock, durable blocking, bubble deadlock detection)",
 		"context and time of the standard library",
@@ -915,8 +1087,8 @@ func TestCheck(t *testing.T) {
 		"true parallel interleavings inside Dial are only exercised, not enumerated (the -race stage looks at them)")
 
 	var (
-		nScen, nWinner, nLateClosed, nCancel, nTimeouts, nAfter, nJoined, nNoAddr, nWake, nWakeOld, nAttempts, nScanned, nCancelJoin atomic.Int64
-		inflightSeen                                                                                                                 [8]atomic.Int64
+		nScen, nWinner, nLateClosed, nCancel, nTimeouts, nAfter, nJoined, nNoAddr, nWake, nWakeOld, nAttempts, nScanned, nCancelJoin, nRetries, nRejNoCfg, nRetrySameDL, nRetryTimeouts atomic.Int64
+		inflightSeen                                                                                                                                                                    [8]atomic.Int64
 	)
 	// A bubble that ends with blocked goroutines keeps them (and their memory)
 	// for the rest of the process, and every such event costs a whole-process
@@ -990,6 +1162,10 @@ func TestCheck(t *testing.T) {
 			inflightSeen[st.maxInflight].Add(1)
 		}
 		nCancelJoin.Add(int64(st.cancelJoin))
+		nRetries.Add(int64(st.retries))
+		nRejNoCfg.Add(int64(st.rejNoCfg))
+		nRetrySameDL.Add(int64(st.retrySameDeadline))
+		nRetryTimeouts.Add(int64(st.retryTimeouts))
 		for _, m := range incon {
 			if nIncon.Add(1) <= 5 {
 				r.Inconclusive("%s", m)
@@ -1010,6 +1186,7 @@ func TestCheck(t *testing.T) {
 
 	// Quick and thorough both run the complete grid; only the number of drawn scenarios differs.
 	r.Parallel("grid", gridSize(), func(i int, _ *mrand.Rand) { run("grid", i, gridScenario(i)) })
+	r.Parallel("retrygrid", retryGridSize(), func(i int, _ *mrand.Rand) { run("retrygrid", i, retryGridScenario(i)) })
 	nRand := r.N(120000, 2000000)
 	if raceOn {
 		nRand = 150000
@@ -1032,6 +1209,10 @@ func TestCheck(t *testing.T) {
 	r.Count("starts_advanced_by_failure", nWake.Load())
 	r.Count("starts_advanced_by_failure_older_than_previous_start", nWakeOld.Load())
 	r.Count("in_bubble_goroutine_scans", nScanned.Load())
+	r.Count("attempts_with_ech_retry", nRetries.Load())
+	r.Count("ech_retries_entered_live_under_the_attempt_deadline", nRetrySameDL.Load())
+	r.Count("ech_retries_cut_off_at_attempt_start_plus_timeout", nRetryTimeouts.Load())
+	r.Count("ech_rejections_without_retry_configs_not_retried", nRejNoCfg.Load())
 	maxSeen := 0
 	for k := range inflightSeen {
 		if v := inflightSeen[k].Load(); v > 0 {
@@ -1041,10 +1222,15 @@ func TestCheck(t *testing.T) {
 	}
 	r.Extra("max_in_flight_seen", maxSeen)
 	r.Extra("grid_scenarios", gridSize())
+	r.Extra("retrygrid_scenarios", retryGridSize())
 
 	// Floors: the seed-independent grid provides every class; the values are 5-20 times below what a quick run observes
 	// (same-instant ties make the counters vary by a fraction of a percent between runs).
-	r.Floor("scenarios", int64(gridSize()))
+	r.Floor("scenarios", int64(gridSize()+retryGridSize()))
+	r.Floor("attempts_with_ech_retry", 2000)
+	r.Floor("ech_retries_entered_live_under_the_attempt_deadline", 2000)
+	r.Floor("ech_retries_cut_off_at_attempt_start_plus_timeout", 200)
+	r.Floor("ech_rejections_without_retry_configs_not_retried", 500)
 	r.Floor("scenarios_with_winner", 20000)
 	r.Floor("late_winners_closed", 10000)
 	r.Floor("scenarios_cancelled_by_caller", 10000)
